@@ -127,8 +127,9 @@ func genRepr(run *common.Run) []caseT {
 	return cases
 }
 
-// inGap: the class of F03 (a decidable predicate of the input; same as Lean `inSignedGap`).
-func inGap(k string, v *big.Int) bool {
+// formerGap: the class of F03 before its repair (Lean `inSignedGap`): the values of a signed kind that the BitLen test
+// let through. No longer a divergence class; used to count how many generated cases exercise the repaired region.
+func formerGap(k string, v *big.Int) bool {
 	if !kindSigned(k) {
 		return false
 	}
